@@ -200,8 +200,8 @@ let () =
   (* writer.kclass <doc> : the class K of Props/C14_mixcont.v / C15_mixcont.v (model only: a classifier for the oracles) *)
   register "writer.kclass" (function [d] -> guard (fun () ->
       let doc = parse_doc_w d in
-      Printf.sprintf "k14=%s k15=%s wx=%d" (string_of_n (WriterMix.k14_class doc)) (string_of_n (WriterMix.k15_class doc))
-        (if WriterMix.wx_fields doc then 1 else 0)) | _ -> "BADCASE");
+      Printf.sprintf "k14=%s k15=%s wx=%d k14p=%s" (string_of_n (WriterMix.k14_class doc)) (string_of_n (WriterMix.k15_class doc))
+        (if WriterMix.wx_fields doc then 1 else 0) (string_of_n (WriterMix.k14p_class doc))) | _ -> "BADCASE");
   (* writer.wfword <hex> : TextDoc.wf_word, the contract assumed of every text the writer prints as a bare word *)
   register "writer.wfword" (function [h] -> guard (fun () ->
       if WriterMix.wf_word_text (bytes_of_hex h) then "1" else "0") | _ -> "BADCASE")
